@@ -33,6 +33,20 @@ func genCompressedStream(r *sim.Rng, format string, max int) *checks.StreamRecip
 	pl := sim.GenPayload(r, max)
 	n := pl.Len()
 	dict := sim.Pick(r, []int{4096, 1 << 16, 1 << 18, 1 << 20})
+	if format == "xz" && max > 0 && r.Chance(1, 6) {
+		// an archive of several concatenated streams (cat a.xz b.xz), with stream padding
+		m := &checks.StreamRecipe{Kind: "multi"}
+		for i, k := 0, r.Range(2, 3); i < k; i++ {
+			m.Parts = append(m.Parts, *genCompressedStream(r, "xz", -max/2))
+			m.Pads = append(m.Pads, sim.Pick(r, []int{0, 0, 4, 8}))
+		}
+		return m
+	}
+	if max < 0 {
+		max = -max // a part of a multi-stream archive
+		pl = sim.GenPayload(r, max)
+		n = pl.Len()
+	}
 	if format == "xz" {
 		if r.Chance(1, 3) {
 			return &checks.StreamRecipe{Kind: "refenc-xz", Seed: r.Uint64()}
@@ -51,6 +65,31 @@ func genCompressedStream(r *sim.Rng, format string, max int) *checks.StreamRecip
 		cfg.SizeInHeader, cfg.Size, cfg.EOSMarker = true, int64(n), true
 	}
 	return &checks.StreamRecipe{Kind: "lib", W: &checks.WCase{Format: "lzma", LZ: &cfg, Payload: pl, Ops: []checks.Op{{K: "w", N: n}, {K: "c"}}}}
+}
+
+// cutFor draws the length to which a compressed input is truncated; for an
+// archive of several streams half of the cuts fall at, or a few bytes behind,
+// the start of a later stream (the places where "no more streams" and "a
+// stream that was cut off" have to be told apart).
+func cutFor(r *sim.Rng, st *checks.StreamRecipe) int {
+	b := st.Build()
+	n := len(b.Stream)
+	if len(b.PartEnds) > 1 && r.Bool() {
+		i := r.Intn(len(b.PartEnds) - 1)
+		start := b.PartEnds[i]
+		if i < len(st.Pads) {
+			start += st.Pads[i]
+		}
+		c := start + sim.Pick(r, []int{0, 1, 2, 3, 4, 5, 6, 8, 11, 12, 13})
+		if c < n {
+			return c
+		}
+	}
+	c := r.Intn(n)
+	if r.Bool() && n > 13 {
+		c = r.Range(12, n-1) // past the header so that the format is still recognised
+	}
+	return c
 }
 
 // genLongTruncated: a truncated archive whose decoded part exceeds the
@@ -110,7 +149,7 @@ func genC10(r *sim.Rng, tier string, idx int) *GCase {
 		}
 		name := base
 		if r.Chance(1, 10) {
-			name = base + sim.Pick(r, []string{".xz", ".lzma", ".txz", ".tlz"})
+			name = base + sim.Pick(r, []string{".xz", ".lzma", ".txz", ".tlz", ".XZ", ".Lzma"})
 		}
 		c.Files = append(c.Files, genPlainFile(r, name, max))
 		if r.Chance(1, 12) {
@@ -129,7 +168,10 @@ func genC10(r *sim.Rng, tier string, idx int) *GCase {
 		}
 		ext := map[string][]string{"xz": {".xz", ".xz", ".xz", ".txz"}, "lzma": {".lzma", ".lzma", ".tlz"}}[format]
 		name := base + sim.Pick(r, ext)
-		if r.Chance(1, 6) {
+		if r.Chance(1, 12) {
+			// a known suffix in another letter case is not a known suffix
+			name = base + sim.Pick(r, []string{".XZ", ".Xz", ".LZMA", ".Lzma", ".TXZ", ".tLz"})
+		} else if r.Chance(1, 6) {
 			name = base // no known suffix
 			if r.Bool() {
 				name = base + ".bak"
@@ -141,11 +183,7 @@ func genC10(r *sim.Rng, tier string, idx int) *GCase {
 			f.Kind = "stream"
 		case 1:
 			f.Kind = "cut"
-			n := len(f.Stream.Build().Stream)
-			f.Cut = r.Intn(n)
-			if r.Bool() && n > 13 {
-				f.Cut = r.Range(12, n-1) // past the header so that the format is still recognised
-			}
+			f.Cut = cutFor(r, f.Stream)
 		case 2:
 			// damage is only unambiguous where the format can detect it: .xz with a
 			// check (a .lzma stream carries no checksum)
@@ -154,7 +192,7 @@ func genC10(r *sim.Rng, tier string, idx int) *GCase {
 				f.Seed = r.Uint64()
 			} else {
 				f.Kind = "cut"
-				f.Cut = r.Intn(len(f.Stream.Build().Stream))
+				f.Cut = cutFor(r, f.Stream)
 			}
 		default:
 			pl := sim.GenPayload(r, 500)
@@ -190,7 +228,11 @@ func genC10(r *sim.Rng, tier string, idx int) *GCase {
 		tgt = in + ".xz"
 	}
 	if tgt != "" && r.Chance(1, 4) {
-		c.Files = append(c.Files, genPlainFile(r, tgt, 200))
+		if r.Chance(1, 6) {
+			c.Files = append(c.Files, FileSpec{Name: tgt, Kind: "dir"})
+		} else {
+			c.Files = append(c.Files, genPlainFile(r, tgt, 200))
+		}
 	}
 	if tgt != "" && r.Chance(1, 10) {
 		ext := ".compress"
